@@ -1514,6 +1514,54 @@ void CircuitExec::runC08() {
         compare(runSeq(c2, &v, tag + ".2", false), what, vi);
         break;
       }
+      case VM_HISTORY: {
+        // The object first lives through something else: every cell (fixed ones too) is moved,
+        // the library is made to look at that state (a placement call or read-only queries), then
+        // positions and orientations are put back through the setters.  The public state is the
+        // initial one again, so the stage sequence must give the reference results.
+        Circuit c = buildCircuit(plan_.circuit);
+        Snapshot init = takeSnapshot(c);
+        std::vector<int> x0 = c.cellX(), y0 = c.cellY();
+        std::vector<CellOrientation> o0 = c.cellOrientation();
+        Rng hr(mix64(plan_.seed, 0x4157 + (uint64_t)vi));
+        int H = init.rows.empty() ? 4 : std::max(1, init.rows[0].maxY - init.rows[0].minY);
+        std::vector<int> x = x0, y = y0;
+        for (int i = 0; i < (int)x.size(); ++i) {
+          if (std::abs((long long)x[i]) > (1 << 28) || std::abs((long long)y[i]) > (1 << 28)) continue;
+          x[i] += (int)hr.range(-6 * H, 6 * H);
+          y[i] += (int)hr.range(-3, 3) * H;
+        }
+        c.setCellX(x);
+        c.setCellY(y);
+        int what3 = (int)hr.below(4);
+        if (what3 == 3) {
+          Outcome q = guarded([&] {
+            (void)c.computeRows().size();
+            (void)c.report();
+            (void)c.hpwl();
+          });
+          (void)q;
+        } else {
+          Op hop;
+          hop.kind = what3 == 0 ? OP_LEGALIZE : what3 == 1 ? OP_DETAILED : OP_GLOBAL;
+          hop.params.effort = 1;
+          hop.params.ov.emplace_back("g.maxNbSteps", 3.0);
+          hop.params.ov.emplace_back("d.nbPasses", 1.0);
+          hop.schedMode = v.schedMode;
+          hop.sched = v.sched;
+          runStage(c, -1, hop, -1, 0, false, tag + ".history");
+        }
+        c.setCellX(x0);
+        c.setCellY(y0);
+        c.setCellOrientation(o0);
+        std::string fd = frameDiff(init, takeSnapshot(c), 1), why;
+        if (!fd.empty() || !samePlacement(init, takeSnapshot(c), &why)) {
+          stat("c08_history_state_not_restorable");  // the history changed more than the setters restore
+          break;
+        }
+        compare(runSeq(c, &v, tag, false), what, vi);
+        break;
+      }
       case VM_AFTER_OTHER: {
         if (!plan_.other.cells.empty()) {
           Circuit o = buildCircuit(plan_.other);
